@@ -89,6 +89,10 @@ def train_case(case):
             kw["feature_mask"] = np.array([True, False, True]) if variant != 5 else np.array([False, True, False])   # variant 5: a one-feature tree
     if family in ("SparseLinearModel", "SparseMLPModel"):
         kw["alpha"] = 0.05 if not use_path else 0.3
+    verbose = route.endswith("+verbose")
+    route = route.replace("+verbose", "")
+    if verbose:
+        kw["verbose"] = True             # a reporting flag: what is computed must not change
     if route != "ctor":
         # non-default regularisation hyperparameters, so that a value remembered from construction time differs from the current one
         if family in ("RIM", "KernelRIM"):
@@ -100,7 +104,7 @@ def train_case(case):
         from gemclus import add_mlcl_constraint
         model = add_mlcl_constraint(model, ML, CL, FACTOR)
     spy = seams.BatchSpy(model)
-    where = dict(route=route, family=family, gemini=gemini if family not in ("RIM", "KernelRIM") else "mi", solver=solver, batch_size=bs, decorated=decorated,
+    where = dict(route=route + ("+verbose" if verbose else ""), family=family, gemini=gemini if family not in ("RIM", "KernelRIM") else "mi", solver=solver, batch_size=bs, decorated=decorated,
                  trained_by="path" if use_path else "fit")
     Ktrain = None
     if family == "KernelRIM":
@@ -150,7 +154,9 @@ def train_case(case):
         # history: the object was already fitted on other data (other n) before the monitored fit
         model.fit(seams.tiny_data(n + 2, d, seed + 9))
         del spy.log[:]
-    with seams.optimiser_spy(cb):
+    import contextlib
+    import io
+    with seams.optimiser_spy(cb), contextlib.redirect_stdout(io.StringIO()):
         if use_path:
             import warnings
             with warnings.catch_warnings():
@@ -207,6 +213,12 @@ def explorers(tier, seed):
                 for bs in ([None] if family == "CategoricalModel" else [2, None]):
                     for data_id in ((0, 20) if family in ("SparseLinearModel", "SparseMLPModel") and solver == "adam" else (0,)):
                         cases.append((family, gem, solver, bs, False, data_id, 3, 0.1, seed, route))
+    for family in FAMILIES:
+        gem = "mi" if family in ("RIM", "KernelRIM") else ("mmd_ova" if FAMILIES.index(family) % 2 else "tv_ovo")
+        for bs in ([None] if family == "CategoricalModel" else [2, None]):
+            for decorated in (False, True):
+                for data_id in ((0, 20) if family in ("SparseLinearModel", "SparseMLPModel") else (0,)):
+                    cases.append((family, gem, "adam", bs, decorated, data_id, 3, 0.1, seed, "ctor+verbose"))
     return [Explorer("every_step_direction", "props.c03", "train_case", cases, chunk=4, floor=200,
                      rule="model family x GEMINI x solver x batch size x {plain, decorated} x 2 datasets; every optimiser step of every epoch is "
                           "checked; non-trivial = fit with at least one step whose direction is non-zero; outcomes = distinct ReLU activation "
